@@ -1,5 +1,5 @@
 #!/bin/bash
-# confirm the two round-N seeds an agent left in /tmp/seed5/<Cnn>-out and run the current checks against them
+# confirm the two round-N seeds an agent left in /tmp/seed${SEEDROUND:-5}/<Cnn>-out and run the current checks against them
 # usage: tools/confirm_seed.sh <Cnn> [round-tag, default r5] [--also Cxx]
 P=$1; R=${2:-r5}; ALSO=$3
 W=/tmp/vfc-$P
@@ -7,7 +7,7 @@ rm -rf $W; mkdir -p $W
 rsync -a --exclude .git --exclude replays --exclude evidence /verif/ $W/
 mkdir -p $W/replays $W/evidence
 for s in 1 2; do
-  d=/tmp/seed5/$P-out
+  d=/tmp/seed${SEEDROUND:-5}/$P-out
   if [ -f $d/s$s.diff ] && [ -f $d/s${s}_demo.py ]; then
     python3 $W/tools/seedtest.py $P-${R}s$s $P $d/s$s.diff $d/s${s}_demo.py --meta $d/s${s}_meta.json --out /verif/seeded $ALSO
   else
